@@ -329,7 +329,7 @@ func c20UploadKinds(files []string) []string {
 
 func TestVerif_C20_set(t *testing.T) {
 	s := verifh.New(t, "C20", "set",
-		"sequences of 1-5 setter calls {Client.SetCommonBasicAuth, Client.SetCommonBearerAuthToken, Request.SetBasicAuth, Request.SetBearerAuthToken} in any order (client-level calls also AFTER the request was created) with credentials from {\"\", one byte, colon, spaces, quotes, non-ASCII, long, random bytes} - every combination of empty user / empty password / both / empty token is enumerated first, at both levels, alone and overriding an earlier account -, with or without user information in the URL, over HTTP/1.1 and HTTP/2; answer = what the origin's net/http BasicAuth() and the bearer split recover (refused | none | some); model = Req.Auth.recoveredBasic / recoveredBearer; non-trivial = at least two calls or an empty component")
+		"sequences of 1-5 setter calls {Client.SetCommonBasicAuth, Client.SetCommonBearerAuthToken, Request.SetBasicAuth, Request.SetBearerAuthToken} in any order (client-level calls also AFTER the request was created) with credentials from {\"\", one byte, colon, spaces, quotes, non-ASCII, long, random bytes, scheme-like strings (\"Bearer abc\", \"bearer abc\", \"Basic QQ==\", ...)} - every combination of empty user / empty password / both / empty token is enumerated first, at both levels, alone and overriding an earlier account -, with or without user information in the URL, over HTTP/1.1 and HTTP/2; answer = what the origin's net/http BasicAuth() and the bearer split recover (refused | none | some); model = Req.Auth.recoveredBasic / recoveredBearer; non-trivial = at least two calls or an empty component")
 	r := s.Rand()
 	type op struct {
 		kind string // cb ct rb rt
@@ -339,6 +339,10 @@ func TestVerif_C20_set(t *testing.T) {
 	text := func() string {
 		if r.Intn(6) == 0 {
 			return verifh.RandBytes(r, r.Intn(40), "")
+		}
+		if r.Intn(8) == 0 {
+			s.Count("text:scheme-like")
+			return c20SchemeText(r)
 		}
 		return verifh.Pick(r, texts)
 	}
@@ -351,6 +355,9 @@ func TestVerif_C20_set(t *testing.T) {
 				[]op{{"rb", "other", "pw"}, {"cb", "admin", "s3cret"}, {lvl + "b", up[0], up[1]}},
 				[]op{{lvl + "t", "tok", ""}, {lvl + "b", up[0], up[1]}},
 				[]op{{lvl + "b", up[0], up[1]}, {"cb", "late", "comer"}})
+		}
+		for _, v := range c20SchemeLike[:6] {
+			scripted = append(scripted, []op{{lvl + "t", v, ""}}, []op{{"cb", "admin", "s3cret"}, {lvl + "t", v, ""}})
 		}
 		scripted = append(scripted, []op{{lvl + "t", "", ""}}, []op{{"cb", "admin", "s3cret"}, {lvl + "t", "", ""}}, []op{{lvl + "b", "u", "p"}, {lvl + "t", "", ""}})
 	}
